@@ -16,11 +16,13 @@ MANIFEST = {
             "with p, n prime and n*G = infinity, facts proved for secp256k1/secp256r1 in C02. Model tied to the code by differential "
             "correspondence in both arithmetic configurations and an independent Python RFC 6979 on every run.",
     "note": "libsecp256k1 absent (its low-S normalising sign/verify is never run). 'Nonce never shared between distinct (key, hash)' is "
-            "k = RFC6979(d, z) plus an assumption on HMAC-SHA256; unforgeability is a cryptographic assumption, not a theorem.",
+            "k = RFC6979(d, z) (proved against a specification written from the RFC) plus an assumption on HMAC-SHA256; unforgeability is a "
+            "cryptographic assumption, not a theorem. verify_iff and recover_sound carry the hypothesis n*Q = infinity (#E(F_p) = n is not "
+            "provable here). Known finding: on toy curves the retry loop k += 1 can reach k = n and raise TypeError (C01_sign_returns_refuted).",
     "technique": "Lean 4 proof (Mathlib group law over ZMod p, field arithmetic mod n) + differential correspondence model vs "
                  "implementation per backend + independent RFC 6979 reference + exhaustive toy-curve enumeration (test)",
 }
-RULE = ("ops sign/verify/recover/rfc6979/rfc6979n/toy_sign/toy_verify on secp256k1, secp256r1 (pure and OpenSSL), toy curves of prime "
+RULE = ("ops sign/verify/recover/rfc6979/rfc6979n/rfc6979_spec/keysign/keyverify/toy_sign/toy_verify on secp256k1, secp256r1 (pure and OpenSSL), toy curves of prime "
         "order; boundary scalars d,z in {1,2,n-1}, z in {n,n+1,2^256-1}, r,s in {0,n,n+1,2^256-1}, s -> n-s, foreign key, foreign "
         "hash, single-bit changes of d and z; distinct = distinct op line; trivial = z = 0")
 ASSUMPTIONS = [
@@ -116,6 +118,15 @@ def _ref_sig(tok, d, z):
 
 
 def oracle(op: str, out: str):
+    """the property evaluated on the implementation alone; an auxiliary implementation call that raises where the property
+    says it cannot (sum of two curve points, multiple of a curve point) makes the answer unparsable and is reported"""
+    try:
+        return _oracle(op, out)
+    except (ValueError, IndexError, TypeError) as e:
+        return "an auxiliary group operation on curve points raised or returned a malformed value (%s: %s)" % (type(e).__name__, str(e)[:80])
+
+
+def _oracle(op: str, out: str):
     a = op.split(" ")
     k = a[0]
     if k in ("rfc6979", "rfc6979n"):
@@ -190,6 +201,26 @@ def oracle(op: str, out: str):
             if o2 != out:
                 return "verify is not invariant under s -> n-s"
         return _cross(op, out)
+    if k == "keysign":
+        tok = a[1]
+        n = consts(tok)[5]
+        d, z = int(a[2]), int(a[3])
+        if not (1 <= d < n and 1 <= z < 2 ** 256):
+            return None
+        ref = cc.impl("sign %s %d %d" % (tok, d, z))
+        if not out.startswith("ok ") or not ref.startswith("ok ") or out[3:].split(" ") != ref[3:].split(" ")[:2]:
+            return "Key.sign (through DER) differs from Generator.sign: %s vs %s" % (out, ref)
+        return None
+    if k == "keyverify":
+        tok = a[1]
+        Q = parse_pt(a[2])
+        z = int(a[3])
+        if Q == (None, None) or not on_curve(tok, Q) or not (1 <= z < 2 ** 256):
+            return None
+        ref = cc.impl("verify %s %s" % (tok, " ".join(a[2:])))
+        if out != ref:
+            return "Key.verify (through DER) differs from Generator.verify: %s vs %s" % (out, ref)
+        return None
     if k == "recover":
         tok = a[1]
         n = consts(tok)[5]
@@ -284,7 +315,7 @@ def gen(ctx, emit):
             tok = name + "/" + cfg
             # ---- boundary corpus
             ds = [1, 2, n - 1]
-            zs = [1, 2, n - 1, n, n + 1, two256 - 1]
+            zs = [1, 2, n - 1, n, n + 1, 2 * n if 2 * n < two256 else two256 - 2, two256 - 1]
             for d in ds:
                 for z in zs:
                     emit("sign %s %d %d" % (tok, d, z))
@@ -317,6 +348,19 @@ def gen(ctx, emit):
                 emit("recover %s %d %d %d 1" % (tok, z0, r, s))
                 emit("recover %s %d %d %d ~" % (tok, z0, r, n - s))
                 emit("recover %s %d %d %d ~" % (tok, z0 + 1, r, s))
+            if name == "secp256k1" and so.startswith("ok "):
+                # Key.sign / Key.verify (DER wrapper) of the BTC Key class
+                for d in (1, 2, n - 1, d0):
+                    emit("keysign %s %d %d" % (tok, d, z0))
+                emit("keysign %s 0 %d" % (tok, z0))
+                emit("keysign %s %d %d" % (tok, n, z0))
+                emit("keysign %s 5 0" % tok)
+                for rr, ss in ((r, s), (r, n - s), (r, s + n), (0, s), (r, 0), (n, s), (two256 - 1, s), (r ^ 1, s), (r, two256 + 5)):
+                    emit("keyverify %s %s %d %d %d" % (tok, Q, z0, rr, ss))
+                emit("keyverify %s %s 0 %d %d" % (tok, Q, r, s))
+                emit("keyverify %s %s %d %d %d" % (tok, Q2, z0, r, s))
+                emit("keyverify %s %d,%d %d %d %d" % (tok, parse_pt(Q)[0], parse_pt(Q)[1] + 1, z0, r, s))
+                emit("keyverify %s %d,%d 1 %d 1" % (tok, gx, gy, n - 1))
             # u1*G + u2*Q = infinity: z + r*d = 0 (mod n)  (fixed defect: used to raise TypeError)
             emit("verify %s %d,%d 1 %d 1" % (tok, gx, gy, n - 1))
             emit("verify %s %d,%d 5 %d 7" % (tok, gx, gy, n - 5))
@@ -324,7 +368,7 @@ def gen(ctx, emit):
             for r in (1, 2, 3, 4, 5, 6, 7):
                 emit("recover %s 1 %d 1 ~" % (tok, r))
             # ---- random stream
-            for _ in range(ctx.n(8, 250)):
+            for _ in range(ctx.n(5, 140)):
                 d = rng.choice([rng.randrange(1, n), rng.randrange(1, n), rng.randrange(1, 2 ** 64), n - rng.randrange(1, 1000)])
                 z = rng.choice([rng.randrange(1, two256), rng.randrange(1, two256), rng.randrange(1, n), rng.getrandbits(rng.randrange(1, 257)) or 1])
                 emit("sign %s %d %d" % (tok, d, z))
@@ -360,6 +404,8 @@ def gen(ctx, emit):
         for _ in range(ctx.n(3, 40)):
             emit("rfc6979n %d %d %d" % (n, rng.randrange(1, n), rng.choice([1, two256 - 1, rng.randrange(1, two256)])))
         emit("rfc6979n %d %d %d" % (n, n - 1, two256 - 1))
+        for _ in range(ctx.n(2, 20)):
+            emit("rfc6979_spec %d %d %s" % (n, rng.randrange(1, n), cc_hex(rng, 32)))
         emit("rfc6979n %d %d %d" % (n, n, 1))          # OverflowError only when d does not fit order_size bytes
         emit("rfc6979n %d %d %d" % (n, -1, 1))
     for key, msg in (("0b" * 20, "4869205468657265"), ("-", "-"), ("aa" * 131, "54657374"), ("00" * 64, "ff" * 100), ("01" * 65, "-")):
@@ -370,7 +416,19 @@ def gen(ctx, emit):
     toy = []
     for p in cc.TOY_PRIMES_SMALL:
         toy += cc.toy_curves(p)
-    chosen = rng.sample(toy, ctx.n(4, 60))
+    # always-run toy curves: one with n > p (abscissas r in [p, n) have no point), one with n < p (nonce points with
+    # x >= n, so that `x mod n` matters in verify and the recid bit 2 is exercised)
+    fixed = ["toy:43:41:40:0:13:53", "toy:43:6:24:0:14:37"]
+    for tok in fixed:
+        p, ca, cb, gx, gy, n = consts(tok)
+        for d in (1, 2, n - 1):
+            emit("toy_sign %s %d %d" % (tok, d, n + 2), "toy-table")
+        emit("toy_verify %s 1 1" % tok, "toy-table")
+        emit("toy_verify %s 2 %d" % (tok, n + 1), "toy-table")
+        emit("toy_verify %s %d %d" % (tok, n - 1, 2 ** 256 - 1), "toy-table")
+        for r in range(1, n):
+            emit("recover %s 5 %d 3 ~" % (tok, r))
+    chosen = rng.sample(toy, ctx.n(3, 40))
     for tok in chosen:
         p, ca, cb, gx, gy, n = consts(tok)
         ds = range(1, n) if (ctx.thorough and n <= 31) else sorted({1, 2, n - 1, rng.randrange(1, n)})
